@@ -45,6 +45,7 @@ mod c14;
 mod c02;
 mod c20;
 mod c05;
+mod c08;
 
 fn main() {
     let which = std::env::args().nth(1).unwrap_or_default();
